@@ -272,20 +272,22 @@ const (
 
 // kinds for which a reflect.Value / reflect.Type method does not panic
 var reflectKindReq = map[string][]int64{
-	"Elem":        {rkPointer, rkInterface},
-	"Len":         {rkSlice, rkArray, rkString, rkMap, rkChan},
-	"Index":       {rkSlice, rkArray, rkString},
-	"IsNil":       {rkChan, rkFunc, rkInterface, rkMap, rkPointer, rkSlice, rkUnsafePtr},
-	"Field":       {rkStruct},
-	"FieldByName": {rkStruct},
-	"NumField":    {rkStruct},
-	"MapIndex":    {rkMap},
-	"MapKeys":     {rkMap},
-	"MapRange":    {rkMap},
-	"Convert":     {-1},                                         // needs CanConvert(target)
-	"Addr":        {-2},                                         // needs CanAddr()
-	"Key":         {rkMap},                                      // reflect.Type.Key
-	"TypeElem":    {rkArray, rkChan, rkMap, rkPointer, rkSlice}, // reflect.Type.Elem
+	"Elem":            {rkPointer, rkInterface},
+	"Len":             {rkSlice, rkArray, rkString, rkMap, rkChan},
+	"Index":           {rkSlice, rkArray, rkString},
+	"IsNil":           {rkChan, rkFunc, rkInterface, rkMap, rkPointer, rkSlice, rkUnsafePtr},
+	"Field":           {rkStruct},
+	"FieldByName":     {rkStruct},
+	"FieldByIndex":    {rkStruct},
+	"FieldByIndexErr": {rkStruct},
+	"NumField":        {rkStruct},
+	"MapIndex":        {rkMap},
+	"MapKeys":         {rkMap},
+	"MapRange":        {rkMap},
+	"Convert":         {-1},                                         // needs CanConvert(target)
+	"Addr":            {-2},                                         // needs CanAddr()
+	"Key":             {rkMap},                                      // reflect.Type.Key
+	"TypeElem":        {rkArray, rkChan, rkMap, rkPointer, rkSlice}, // reflect.Type.Elem
 }
 
 type panicSite struct {
@@ -600,6 +602,13 @@ func checkC06(P *Prog, r *Result) {
 						}
 						continue
 					}
+					// FieldByName / FieldByIndex walk through embedded pointers and panic on a nil one ("indirection
+					// through nil pointer to embedded struct"): a struct given as input may embed a nil pointer. The
+					// Err variants report it instead.
+					if (m == "FieldByName" || m == "FieldByIndex" || m == "FieldByNameFunc") && tainted {
+						r.bad("C06/panic-site", c, pos, fmt.Sprintf("reflect.Value.%s on a struct that is input data [%s]: a field promoted from an embedded pointer that is nil makes it panic (reflect: indirection through nil pointer to embedded struct); Type().FieldByName + FieldByIndexErr reports it as missing", m, via))
+						continue
+					}
 					is, _ := P.kindFacts(b, s.operand)
 					okKind := false
 					for _, k := range reflectKindReq[m] {
@@ -610,7 +619,7 @@ func checkC06(P *Prog, r *Result) {
 					switch {
 					case okKind:
 						r.ok("C06/panic-site", c, pos, "dominating reflect.Kind test admits "+m)
-					case structProvOK && P.isStructProviderValue(s.operand) && (m == "FieldByName" || m == "Field" || m == "NumField"):
+					case structProvOK && P.isStructProviderValue(s.operand) && (m == "FieldByName" || m == "Field" || m == "NumField" || m == "FieldByIndexErr"):
 						r.ok("C06/panic-site", c, pos, "StructDataProvider.value is a struct by construction: "+whyS)
 					case sliceCoercerOK && coercersNonNil && P.isCoercedValue(s.operand) && (m == "Len" || m == "Index"):
 						r.ok("C06/panic-site", c, pos, "value produced by the slice coercer (or the schema's Default): "+whySl)
@@ -1114,6 +1123,13 @@ func (P *Prog) decideInvoke(r *Result, g *modCG, fn *ssa.Function, s panicSite, 
 			if !valid && P.valueOfNonNil(x.Block(), rv) {
 				valid = true
 			}
+			// the value a struct provider holds is a struct by construction (every literal of the provider stores a value
+			// tested Kind() == Struct)
+			if !valid && P.isStructProviderValue(rv) {
+				if okS, _ := P.structProviderBuiltFromStructs(); okS {
+					valid = true
+				}
+			}
 			if !valid && P.paramValidAtCallSites(rv, 0) {
 				valid = true
 			}
@@ -1367,6 +1383,22 @@ func (P *Prog) decideIndex(r *Result, g *modCG, fn *ssa.Function, s panicSite, c
 			if !bounded {
 				r.bad("C06/panic-site", c, pos, "the index is counted down in a loop whose condition depends on the data ["+via+"] and nothing keeps it from going below zero: an input made of bytes that never satisfy the condition panics with 'index out of range [-1]'")
 				return
+			}
+		}
+	}
+	// a string or slice cut at a position that some other package computed (`doc[from : syn.Offset+1]`): what the
+	// number means is that package's business - encoding/json's Offset is one past the offending byte - and only a
+	// length test of the value being cut makes the expression safe
+	if sl, isSl := s.in.(*ssa.Slice); isSl {
+		if _, isArr := sl.X.Type().Underlying().(*types.Pointer); !isArr && !P.lenDominates(b, s.operand) {
+			for _, bd := range []ssa.Value{sl.Low, sl.High} {
+				if bd == nil {
+					continue
+				}
+				if src := foreignNumber(bd, s.operand, 0); src != "" {
+					r.bad("C06/panic-site", c, pos, "the value is cut at a position taken from "+src+" without a test of its length: when that position is past the end (an error offset that counts one past the offending byte, at the end of the input) the runtime panics with 'slice bounds out of range'")
+					return
+				}
 			}
 		}
 	}
@@ -1756,4 +1788,57 @@ func cmpNeverPanics(t types.Type) bool {
 		return cmpNeverPanics(u.Elem())
 	}
 	return false
+}
+
+// foreignNumber: the bound is computed (through arithmetic, conversions, min/max) from a field of a struct type of
+// another module or from the result of a non-module, non-builtin function that is not about the sliced value itself
+// (len(x), strings.Index(x, ...) are about x). Returns a description, or "".
+func foreignNumber(v ssa.Value, about ssa.Value, depth int) string {
+	if depth > 6 {
+		return ""
+	}
+	switch x := v.(type) {
+	case *ssa.BinOp:
+		if s := foreignNumber(x.X, about, depth+1); s != "" {
+			return s
+		}
+		return foreignNumber(x.Y, about, depth+1)
+	case *ssa.Convert:
+		return foreignNumber(x.X, about, depth+1)
+	case *ssa.ChangeType:
+		return foreignNumber(x.X, about, depth+1)
+	case *ssa.Phi:
+		for _, e := range x.Edges {
+			if s := foreignNumber(e, about, depth+1); s != "" {
+				return s
+			}
+		}
+	case *ssa.UnOp:
+		if x.Op == token.MUL {
+			if fa, ok := x.X.(*ssa.FieldAddr); ok {
+				if _, f := fieldVar(fa); f != nil && f.Pkg() != nil && !inModule(f.Pkg().Path()) {
+					return "the field " + f.Name() + " of " + typeStr(fa.X.Type())
+				}
+			}
+		}
+	case *ssa.Call:
+		ci := callOf(x)
+		if ci.builtin == "min" || ci.builtin == "max" {
+			for _, a := range x.Call.Args {
+				if s := foreignNumber(a, about, depth+1); s != "" {
+					return s
+				}
+			}
+			return ""
+		}
+		if ci.builtin != "" {
+			return ""
+		}
+		for _, a := range x.Call.Args {
+			if sameValue(a, about) {
+				return "" // a position within the value itself
+			}
+		}
+	}
+	return ""
 }
